@@ -7,6 +7,7 @@ pub mod c09;
 pub mod c13;
 pub mod c14;
 pub mod c17;
+pub mod conc;
 pub mod hist;
 pub mod c18;
 pub mod c19;
@@ -25,6 +26,8 @@ pub fn run(id: &str, tier: Tier) -> i32 {
         "C12" => hist::run("C12", tier),
         "C13" => hist::run("C13", tier),
         "C09" => c09::run(tier),
+        "C15" => conc::run_prop("C15", tier),
+        "C16" => conc::run_prop("C16", tier),
         "C14" => c14::run(tier),
         "C07" => c07::run(tier),
         "C08" => c08::run(tier),
@@ -42,6 +45,7 @@ pub fn run(id: &str, tier: Tier) -> i32 {
 pub fn child(args: &[String]) -> i32 {
     match args[0].as_str() {
         "c02-nest" => c02::child_nest(&args[1..]),
+        "schedx-bench" => conc::bench(),
         k => {
             eprintln!("unknown child kind {k}");
             2
@@ -58,6 +62,8 @@ pub fn replay(id: &str, path: &str) -> i32 {
         "C07" => c07::replay(&v),
         "C08" => c08::replay(&v),
         "C09" => c09::replay(&v),
+        "C15" => conc::replay("C15", &v),
+        "C16" => conc::replay("C16", &v),
         "C14" => c14::replay(&v),
         "C17" => c17::replay(&v),
         "C19" => c19::replay(&v),
